@@ -1,6 +1,7 @@
 """C11 - gather toggles and the app-id check behave as documented."""
 import itertools
 from valve_common import *
+from u2_common import u2_specs, u2_case
 
 ID = "C11"
 PROPS_FILE = "C11"
@@ -67,6 +68,37 @@ def gen_cases(tier, rng):
                               "hex": assemble(bytes(s), evs, full["bz"], fails),
                               "meta": {"stream": "valve-toggles", "expected": exp, "tp": tp, "tr": tr, "op": op, "orr": orr,
                                        "check": check, "badgame": badgame}})
+    # Unreal 2: 9 toggle pairs x section outcomes
+    useeds = [rng.next() >> 1 for _ in range(4 if tier == "quick" else 30)]
+    for seed in useeds:
+        exp = {}
+        for tp in (0, 1):
+            for tm in (0, 1):
+                exp[(tp, tm)] = u2_specs([seed], (tp, tm))[0]
+        full = exp[(1, 1)]
+        evs = full["events"]
+        info = evs[0]
+        ti = evs.index(None)
+        mr_dgs, pl_dgs = evs[1:ti], evs[ti + 1:]
+        for tp, tm in itertools.product(range(3), range(3)):
+            for om, op in itertools.product(OUTCOMES[:3], OUTCOMES[:3]):
+                if (tm == 0 and om != "valid") or (tp == 0 and op != "valid"):
+                    continue
+                script = [info]
+                if tm != 0:
+                    script += (mr_dgs + [None]) if om == "valid" else ([None] if om == "silent" else [b"\x80\x00\x00\x00\x01\x05\x41"])
+                if tp != 0:
+                    script += pl_dgs if op == "valid" else ([None] if op == "silent" else [b"\x80\x00\x00\x00\x02\x01"])
+                pres_m = tm != 0 and om == "valid"
+                pres_p = tp != 0 and op == "valid"
+                fail = None
+                if tm == 2 and om != "valid":
+                    fail = "Err(PacketBad)" if om == "malformed" else "Err(PacketReceive)"
+                elif tp == 2 and op != "valid":
+                    fail = "Err(PacketUnderflow)" if op == "malformed" else "Err(PacketReceive)"
+                want = fail or ("Ok(" + exp[(1 if pres_p else 0, 1 if pres_m else 0)]["expected"] + ")")
+                cases.append({"id": "u2tog/%d/%d%d/%s/%s" % (seed, tp, tm, op, om), "hex": u2_case(7778, (tp, tm), None, script),
+                              "meta": {"stream": "unreal2-toggles", "expected": want, "tp": tp, "tr": tm, "op": op, "orr": om, "check": True, "badgame": False, "unreal2": True}})
     return cases
 
 
@@ -77,6 +109,13 @@ def oracle(case, impl, side):
         return ("panic", "panicked: " + side[:200])
     if res != m["expected"]:
         return ("toggle-result", "toggles p=%d r=%d check=%s outcomes %s/%s: got %s expected %s" % (m["tp"], m["tr"], m["check"], m["op"], m["orr"], res[:200], m["expected"][:200]))
+    if m.get("unreal2"):
+        sent = [t.split(":", 1)[1] for t in trace.split(";") if t.startswith("S")]
+        if m["tp"] == 0 and "7900000002" in sent:
+            return ("skip-requested", "unreal2 players set to Skip but requested")
+        if m["tr"] == 0 and "7900000001" in sent:
+            return ("skip-requested", "unreal2 mutators/rules set to Skip but requested")
+        return None
     sent = [t.split(":", 1)[1][8:10] for t in trace.split(";") if t.startswith("S")]
     if m["tp"] == 0 and "55" in sent:
         return ("skip-requested", "players set to Skip but an A2S_PLAYER request was sent")
